@@ -202,6 +202,7 @@ def run_history(h, workdir):
             img = KLASS[s['fmt']](value(s['v'], shape).astype(np.float64), affine(s['aff'], shape))
             img.set_data_dtype(NPDT[s['dt']])
             imgs.append(img)
+    built = {}           # slot -> (file, saves to it so far) for array images built around a memory map
     saves = {}           # real path of image file -> list of saver slots, in order
     fill = {}            # slot -> (file, number of saves to it at the time the cache was filled)
     print('BEGIN', hid, flush=True)
@@ -217,11 +218,24 @@ def run_history(h, workdir):
                 since = saves.get(f, [])[cnt:]
                 if since:
                     extra = ' alias=%s rewritten=%s' % (os.path.basename(mf), 'own' if set(since) == {s} else 'other')
+        if img is not None and s in built and isinstance(img.dataobj, np.ndarray) and kind in 'FSTWBXA':
+            f, cnt = built[s]
+            if saves.get(f, [])[cnt:]:
+                extra += ' alias=array rewritten=other'       # the image's own array is a map of a rewritten file
+            if kind in 'STW' and not (isinstance(img.dataobj, np.memmap) and img.dataobj.filename is not None):
+                tgt = names[int(tok[2])]
+                try:
+                    base = tgt if not tgt.endswith('.hdr') else tgt[:-4] + '.img'
+                    if os.path.exists(base) and file_key(base) == f:
+                        extra += ' viewmap=1'                   # a base-class view of a map of the target
+                except OSError:
+                    pass
         print('OP', hid, k, tok + extra, flush=True)
         res = None
         try:
             if kind == 'L':
                 imgs[s] = nib.load(names[int(tok[2])], mmap={'T': True, 'F': False, 'R': 'r'}[tok[3]])
+                built.pop(s, None)
                 fill.pop(s, None)
                 res = 'done'
             elif img is None:
@@ -275,6 +289,27 @@ def run_history(h, workdir):
                 s2 = int(tok[2])
                 imgs[s2] = type(img).from_image(img)
                 fill.pop(s2, None)
+                if s in built:
+                    built[s2] = built[s]
+                else:
+                    built.pop(s2, None)
+                res = 'done'
+            elif kind == 'A':       # a NEW image object of the same class around an array of this image
+                s2 = int(tok[2])
+                arr = {'a': lambda: np.asanyarray(img.dataobj), 'f': lambda: img.get_fdata(),
+                       'v': lambda: np.asarray(img.dataobj)}[tok[3]]()
+                ident(arr, shape)                          # touch it, as a user would look at it
+                imgs[s2] = type(img)(arr, img.affine, img.header)
+                fill.pop(s2, None)
+                mf = mapped_file(arr)
+                if mf is not None:
+                    built[s2] = (file_key(mf), len(saves.get(file_key(mf), [])))
+                else:
+                    built.pop(s2, None)
+                if tok[3] == 'f':
+                    mfc = mapped_file(img._fdata_cache) if img._fdata_cache is not None else None
+                    if mfc is not None and s not in fill:
+                        fill[s] = (file_key(mfc), len(saves.get(file_key(mfc), [])))
                 res = 'done'
             elif kind == 'M':       # in-place edit of np.asanyarray(img.dataobj) of a proxy image
                 if isinstance(img.dataobj, np.ndarray):
@@ -353,13 +388,19 @@ def run_history(h, workdir):
                         elif (float(getattr(j.dataobj, 'slope', 1)), float(getattr(j.dataobj, 'inter', 0))) != \
                                 (float(getattr(prox, 'slope', 1)), float(getattr(prox, 'inter', 0))):
                             sig = 'own_file_scaling_changed'
-                    try:
-                        post = np.asanyarray(img.dataobj)
-                        if post.shape != pre.shape or not (np.allclose(post, pre, rtol=0, atol=0.3) if h.get('approx') else
-                                                           np.array_equal(post, pre)):
-                            print('PRED', hid, k, 'unusable:differs', 'sig=' + sig, flush=True)
-                    except Exception as e:
-                        print('PRED', hid, k, 'unusable:' + type(e).__name__, 'sig=' + sig, flush=True)
+                    arr_is_map = s in built and isinstance(img.dataobj, np.ndarray) and built[s][0] == f
+                    if arr_is_map and np.dtype(j.get_data_dtype()).newbyteorder('=') != np.dtype(img.dataobj.dtype).newbyteorder('='):
+                        # the image's own array is a memory map of the file just rewritten with another layout:
+                        # touching it here would decide the outcome of THIS step; the model says what a later read does
+                        print('PRED', hid, k, 'unusable:array_is_map_of_rewritten_file', 'sig=array_map', flush=True)
+                    else:
+                        try:
+                            post = np.asanyarray(img.dataobj)
+                            if post.shape != pre.shape or not (np.allclose(post, pre, rtol=0, atol=0.3) if h.get('approx') else
+                                                               np.array_equal(post, pre)):
+                                print('PRED', hid, k, 'unusable:differs', 'sig=' + sig, flush=True)
+                        except Exception as e:
+                            print('PRED', hid, k, 'unusable:' + type(e).__name__, 'sig=' + sig, flush=True)
             elif kind == 'B':
                 b = img.to_bytes()
                 j = type(img).from_bytes(b)
